@@ -328,6 +328,62 @@ pub fn run(ctx: &mut Ctx) {
     ctx.extra("exhaustive_history_length", json!(len));
     ctx.extra("exhaustive_alphabet", json!(alphabet.iter().map(show).collect::<Vec<_>>()));
 
+    // ---- (a2) scripted histories: duplication patterns on adjacent ids with equal-length contents (offsets that are exact
+    // multiples of the length apart), and archives whose root directory has exactly 16256 / 16257 / 16258 bytes
+    {
+        let eq: Vec<Vec<u8>> = vec![vec![0xA1; 6], vec![0xB2; 6], vec![0xC3; 6], vec![0xD4; 3]];
+        let scripts: Vec<Vec<(u64, usize)>> = vec![
+            vec![(1, 0), (2, 1), (3, 0), (4, 0), (5, 2)],
+            vec![(1, 0), (2, 1), (3, 2), (4, 0), (5, 0), (6, 2)],
+            vec![(1, 0), (2, 0), (3, 1), (4, 0), (5, 0), (6, 0), (7, 1), (8, 2)],
+            vec![(10, 0), (11, 1), (12, 1), (13, 0), (14, 0), (15, 3), (16, 0)],
+        ];
+        for (si, sc) in scripts.iter().enumerate() {
+            for variant in 0..8u64 {
+                if ctx.mine(case) {
+                    ctx.begin(case);
+                    let mut ops: Vec<Op> = sc.iter().map(|(id, c)| Op::Add(*id, *c)).collect();
+                    ops.push(Op::Reopen(variant % 2 == 1, R::CODECS[(variant / 2 % 4) as usize]));
+                    ops.push(Op::Reopen(variant % 2 == 0, R::CODECS[((variant / 2 + 1) % 4) as usize]));
+                    let universe: Vec<u64> = (0..20).collect();
+                    run_history(ctx, false, &ops, &eq, &universe, 1, &mut trans, &mut states);
+                    ctx.case(hash_u64s(&[si as u64, variant, 0x5c]), true);
+                    ctx.count("scripted_histories");
+                    ctx.end(case);
+                }
+                case += 1;
+            }
+        }
+        for (k, gaps) in [2usize, 3, 4].iter().enumerate() {
+            for asyncm in [false, true] {
+                if ctx.mine(case) {
+                    ctx.begin(case);
+                    // 4063 unique short contents on consecutive ids (4 bytes per entry without a codec) with `gaps` id gaps of 200:
+                    // root directory of 2 + 4*4063 + gaps bytes = 16256 / 16257 (the largest that stays in the root) / 16258 (spills)
+                    let n = 4063u64;
+                    let contents: Vec<Vec<u8>> = (0..n).map(|j| vec![j as u8, (j >> 8) as u8, 0x99, (j % 7) as u8]).collect();
+                    let mut ops: Vec<Op> = Vec::with_capacity(n as usize + 2);
+                    let mut id = 0u64;
+                    for j in 0..n {
+                        if j > 0 && (j as usize) <= *gaps {
+                            id += 200;
+                        }
+                        ops.push(Op::Add(id, j as usize));
+                        id += 1;
+                    }
+                    ops.push(Op::Reopen(asyncm, R::C_NONE));
+                    ops.push(Op::Reopen(!asyncm, R::C_NONE));
+                    let universe: Vec<u64> = vec![0, 1, 200, 201, 402, id - 1, id];
+                    run_history(ctx, false, &ops, &contents, &universe, 100_000, &mut trans, &mut states);
+                    ctx.case(hash_u64s(&[k as u64, u64::from(asyncm), 0x5d]), true);
+                    ctx.count("histories_with_root_directory_at_the_budget");
+                    ctx.end(case);
+                }
+                case += 1;
+            }
+        }
+    }
+
     // ---- (b) long random histories over large alphabets
     let nrand = ctx.n(96, 12_000);
     for i in 0..nrand {
@@ -345,6 +401,11 @@ pub fn run(ctx: &mut Ctx) {
                     _ => 1000 + (j as u64) / 4,            // another adjacent block
                 })
                 .collect();
+            let mut ids = ids;
+            if i % 3 == 1 {
+                // the very top of the id space (add_tile takes any u64): single ids and adjacent ones that form runs
+                ids.extend([u64::MAX, u64::MAX - 1, u64::MAX - 2, u64::MAX - 2, u64::MAX - 1, u64::MAX]);
+            }
             let pool: Vec<Vec<u8>> = (0..50)
                 .map(|j| {
                     let n = if j % 10 == 0 { rng.usize(1000, 20_000) } else { rng.usize(1, 60) };
